@@ -1,0 +1,15 @@
+//go:build verif
+
+package vswitch
+
+import (
+	"time"
+
+	"k8s.io/apimachinery/pkg/util/cache"
+)
+
+// VerifNewSwitchPoolWithClock builds a SwitchPool whose cache expiry follows the given clock,
+// so the verification harness can drive cache expiry without sleeping.
+func VerifNewSwitchPoolWithClock(size int, ttl time.Duration, clock cache.Clock) *SwitchPool {
+	return &SwitchPool{cache: cache.NewLRUExpireCacheWithClock(size, clock), ttl: ttl}
+}
